@@ -13,7 +13,7 @@ tvars == <<pend, comm, reps, meta, api, ev, l, g>>
 
 Trace == ndJsonDeserialize(TraceFile)
 
-EvOf(r) == Event(r.act, ToSet(r.S), r.c, r.v, r.from, r.len, r.bk, r.rs, r.m, r.sigs, r.res, r.ret, r.ntf)
+EvOf(r) == [Event(r.act, ToSet(r.S), r.c, r.v, r.from, r.len, r.bk, r.rs, r.m, r.sigs, r.res, r.ret, r.ntf) EXCEPT !.dup = r.dup]
 
 \* JSON lists are indexed from 1, vectors from 0
 VecsOf(o) == [c \in Cids |-> [v \in Vecs |-> o[c][v + 1]]]
@@ -27,7 +27,7 @@ Tags(r) == IF DupSigner(g, EvOf(r)) THEN {"DupSigner"} ELSE {}
 
 SpecStep(r) ==
   LET e == EvOf(r) IN
-  /\ CASE r.act = "add"    -> Add(e.S, e.c, e.v, e.from, e.len, e.bk)
+  /\ CASE r.act = "add"    -> Add(e.S, e.c, e.v, e.from, e.len, e.bk, e.dup)
        [] r.act = "commit" -> Commit(e.S, e.c, e.rs)
        [] r.act = "verify" -> Verify(e.c, e.m, e.sigs)
        [] r.act = "submit" -> Submit(e.S, e.c, e.m, e.sigs)
